@@ -22,6 +22,8 @@ Implementation: Dataclass with defaults matching stateless class detection conve
 from dataclasses import dataclass, field
 from typing import Any
 
+from src.core.linter_utils import require_number
+
 
 @dataclass
 class StatelessClassConfig:
@@ -32,6 +34,10 @@ class StatelessClassConfig:
     ignore: list[str] = field(default_factory=list)
     exempt_test_classes: bool = True
     exempt_mixins: bool = True
+
+    def __post_init__(self) -> None:
+        """Validate configuration values."""
+        require_number("min_methods", self.min_methods)
 
     @classmethod
     def from_dict(
